@@ -1,6 +1,8 @@
 """C03 -- a UID always names the same message.  Monitor: the write-once
 ledger extended with INTERNALDATE and a digest of BODY.PEEK[] re-fetched after
 every step; seq-form vs UID-form differential at command boundaries."""
+import re
+
 from .hist_base import HistProp, module_api
 from .c02 import sk_rename_then_refill
 
@@ -49,6 +51,114 @@ class C03(HistProp):
         return disturbed >= 1 and s["digest_compares"] >= 4 and s["ledger_reobs"] >= 2
 
 
+# ---------------------------------------------------------------- scheduled tier
+# UID commands that have to wait behind another session's EXPUNGE / MOVE /
+# CLOSE, under the deterministic scheduler: every (UID, content) pair shown to
+# any session must be the pair of the initial table (5 messages in INBOX with
+# UIDs 1-5, 3 in `other` with UIDs 1-3; messages that arrive later get larger
+# UIDs and are not judged).
+SCHED_SETS = [
+    [("INBOX", ["EXPUNGE"]), ("INBOX", ["UID FETCH 1:5 (FLAGS BODY.PEEK[HEADER.FIELDS (X-CID)])", "UID FETCH 5 (BODY.PEEK[])"])],
+    [("INBOX", ["UID EXPUNGE 2"]), ("INBOX", ["UID FETCH 3:5 (FLAGS BODY.PEEK[HEADER.FIELDS (X-CID)])"]), ("INBOX", ["UID FETCH 5 (BODY.PEEK[])"])],
+    [("INBOX", ["UID MOVE 1:2 other"]), ("INBOX", ["UID FETCH 3,5 (BODY.PEEK[HEADER.FIELDS (X-CID)])", "UID FETCH 1:* (BODY.PEEK[HEADER.FIELDS (X-CID)])"])],
+    [("INBOX", ["UID STORE 1,3 +FLAGS (\\Deleted)", "CLOSE"]), ("INBOX", ["UID FETCH 4:5 (BODY.PEEK[HEADER.FIELDS (X-CID)])", "UID FETCH 5 (FLAGS BODY.PEEK[HEADER.FIELDS (X-CID)])"])],
+    [("INBOX", ["EXPUNGE"]), ("INBOX", ["UID STORE 5 +FLAGS (kwx)", "UID FETCH 1:* (FLAGS BODY.PEEK[HEADER.FIELDS (X-CID)])"]), ("INBOX", ["UID FETCH 3 (BODY.PEEK[])"])],
+    [("other", ["UID STORE 1 +FLAGS (\\Deleted)", "EXPUNGE"]), ("other", ["UID FETCH 2:3 (BODY.PEEK[HEADER.FIELDS (X-CID)])"]), ("INBOX", ["UID MOVE 5 other"])],
+]
+
+
+def run_sched_shard(spec):
+    import shutil
+    import tempfile
+    from collections import Counter
+
+    from .. import common
+    from ..common import Case, HELD, INCONCLUSIVE, VIOLATED
+    from ..gen import rng
+    from ..rig import run_case
+    from ..vloop import WallWatchdog, fifo_all_strategy, one_at_a_time_strategy, random_strategy
+    from . import c10
+
+    expected = {"INBOX": {i: f"q{i}" for i in range(1, 6)}, "other": {1: "q6", 2: "q7", 3: "q8"}}
+    counts = Counter()
+    cases = []
+    scratch = spec["scratch"]
+    for k in spec["scripts"]:
+        rnd = rng(spec["seed"], "c03sched", k)
+        if k < len(SCHED_SETS):
+            cmdset = SCHED_SETS[k]
+        else:
+            # a remover and one or two UID readers on the same mailbox
+            rem = rnd.choice([["EXPUNGE"], ["UID EXPUNGE 2"], ["UID EXPUNGE 2,4"], ["UID MOVE 1:2 other"], ["UID STORE 1 +FLAGS (\\Deleted)", "EXPUNGE"], ["UID MOVE 2,4 other"]])
+            readers = []
+            for _ in range(rnd.choice([1, 2])):
+                lo = rnd.randint(1, 5)
+                hi = rnd.randint(lo, 5)
+                readers.append(("INBOX", [f"UID FETCH {lo}:{hi} ({rnd.choice(['FLAGS ', ''])}BODY.PEEK[HEADER.FIELDS (X-CID)])", f"UID FETCH {rnd.randint(1, 5)} (BODY.PEEK[])"][: rnd.choice([1, 2])]))
+            cmdset = [("INBOX", rem)] + readers
+            rnd.shuffle(cmdset)
+        cmdset = [(w, list(c)) for w, c in cmdset]
+        ctx = {"script": k, "dir": None}
+        hashes = set()
+        witness = None
+        npairs = 0
+        for i in range(spec.get("nsched", 6)):
+            d = tempfile.mkdtemp(prefix="m", dir=scratch)
+            ctx["dir"] = d
+            holder = {}
+
+            async def main(loop):
+                holder["loop"] = loop
+                return await c10.one_run(loop, ctx, cmdset, "concurrent")
+
+            try:
+                strategy = fifo_all_strategy if i == 0 else rnd.choice([random_strategy, random_strategy, one_at_a_time_strategy])
+                sd = rnd.randrange(1 << 30)
+                res, fs, info = run_case(main, seed=sd, scheduled=True, wall_budget=60, strategy=strategy)
+            except WallWatchdog:
+                counts["sched_wall_watchdog"] += 1
+                continue
+            except Exception:
+                counts["sched_harness_error"] += 1
+                continue
+            finally:
+                shutil.rmtree(d, ignore_errors=True)
+            counts["schedules"] += 1
+            hashes.add(common.h(holder["loop"].trace))
+            bad = []
+            for sname, where, uid, cid in info.get("uid_cid_pairs", []):
+                want = expected.get(where, {}).get(uid)
+                if want is not None:
+                    npairs += 1
+                    counts["sched_uid_content_pairs"] += 1
+                    if cid != want:
+                        bad.append(f"{sname} ({where}): UID {uid} shown with the content of {cid}, it names {want}")
+            kind = "uid-shown-with-another-message"
+            # what a UID FETCH returns carries only UIDs its set names
+            for sname, text, status, got in info.get("uid_fetch_log", []):
+                m = re.match(r"UID FETCH (\d+)(?::(\d+|\*))? ", text)
+                if not m or status != "OK":
+                    continue
+                lo = int(m.group(1))
+                hi = lo if m.group(2) is None else (10 ** 9 if m.group(2) == "*" else int(m.group(2)))
+                counts["sched_uid_fetch_addressing_checks"] += 1
+                wrong = [u for u in got if not (min(lo, hi) <= u <= max(lo, hi))]
+                if wrong and m.group(2) != "*":
+                    bad.append(f"{sname}: {text!r} returned data for UID(s) {wrong}")
+                    kind = "uid-fetch-returned-unnamed-uid"
+            if bad and witness is None:
+                witness = {"kind": kind, "detail": str(bad[:4]), "commands": cmdset, "schedule": list(holder["loop"].trace)[:200], "seed": sd, "strategy": strategy.__name__, "data": {}}
+        counts["distinct_schedules"] += len(hashes)
+        sample = {"commands": cmdset, "distinct_schedules": len(hashes), "uid_content_pairs": npairs}
+        if witness:
+            cases.append(Case.make(f"sched{k}", VIOLATED, spec=dict(spec, scripts=[k]), nontrivial=True, key=common.h(cmdset), sample=sample, witness=witness))
+        elif not hashes:
+            cases.append(Case.make(f"sched{k}", INCONCLUSIVE, spec=dict(spec, scripts=[k]), reason="no schedule completed", sample=sample))
+        else:
+            cases.append(Case.make(f"sched{k}", HELD, spec=dict(spec, scripts=[k]), nontrivial=len(hashes) > 1 and npairs > 0, key=common.h(cmdset), sample=sample))
+    return {"cases": cases, "counts": dict(counts)}
+
+
 hp = C03()
 plan, run_shard, replay_specs, finish = module_api(
     hp, quick=112, thorough=4000,
@@ -58,3 +168,20 @@ plan, run_shard, replay_specs, finish = module_api(
           "restart and was re-fetched; distinct = hash of the operation sequence with numbers abstracted"),
     floors={"digest_compares": 300, "ledger_reobs": 200, "seq_uid_pair_probes": 20, "expunged_msgs": 20},
 )
+
+_plan_hist, _run_hist = plan, run_shard
+
+
+def plan(tier, seed, scale):
+    specs = _plan_hist(tier, seed, scale)
+    n = int((40 if tier == "quick" else 800) * scale)
+    shards = 8 if tier == "quick" else 16
+    for s in range(shards):
+        specs.append({"prop": PROP, "tier": tier, "seed": seed, "shard": 100 + s, "mode": "sched", "scripts": list(range(n))[s::shards], "nsched": 6 if tier == "quick" else 25})
+    return specs
+
+
+def run_shard(spec):
+    if spec.get("mode") == "sched":
+        return run_sched_shard(spec)
+    return _run_hist(spec)
